@@ -637,7 +637,16 @@ fn main() {
             let jb = b.f.node.io.drain_journal();
             let dead = ra.starts_with("Panic") || rb.starts_with("Panic");
             let (va, vb) = if dead { (json!({}), json!({})) } else { (rt.block_on(view(&a.f, &hostile_conns, w)), rt.block_on(view(&b.f, &hostile_conns, w))) };
-            trace.emit(json!({"ev": "Step", "scn": k, "i": i + 1, "op": st.op, "conn": st.conn, "kind": st.kind, "hostile": st.hostile,
+            // did the scenario deliver every honest block (and run the queues)?
+            let last = i + 1 == scn.steps.len();
+            let complete = (scn.pre..scn.chain).all(|h| scn.steps.iter().any(|s| !s.hostile && s.op == "fetched" && s.kind == "next" && s.blk == h))
+                && scn.steps.last().map(|s| s.op == "drain").unwrap_or(false)
+                // out-of-order completion of fetches is the subject of C15, not of this check
+                && {
+                    let order: Vec<usize> = scn.steps.iter().filter(|s| !s.hostile && s.op == "fetched" && s.kind == "next").map(|s| s.blk).collect();
+                    order.windows(2).all(|w| w[0] < w[1])
+                };
+            trace.emit(json!({"ev": "Step", "last": last, "complete": complete, "chain": scn.chain, "scn": k, "i": i + 1, "op": st.op, "conn": st.conn, "kind": st.kind, "hostile": st.hostile,
                 "res": ra, "resb": rb, "va": va, "vb": vb,
                 "sa": sent_to_honest(&ja, &hostile_conns), "sb": sent_to_honest(&jb, &hostile_conns),
                 "pa": [a.f.pending(Queue::Verification, HONEST), a.f.pending(Queue::Consensus, HONEST), a.f.pending(Queue::Router, HONEST)],
